@@ -313,6 +313,13 @@ impl Deserializable for TraceInfo {
                 trace_length
             )));
         }
+        if trace_length as u32 >= usize::BITS {
+            return Err(DeserializationError::InvalidValue(format!(
+                "trace length cannot be greater than 2^{}, but was 2^{}",
+                usize::BITS - 1,
+                trace_length
+            )));
+        }
         let trace_length = 2_usize.pow(trace_length as u32);
 
         // read trace metadata
